@@ -159,7 +159,7 @@ def fnum(x):
     return repr(float(x))
 
 
-USER_SITES = ["Su_a", "Su_b", "Tv_a"]
+USER_SITES = ["Su_a", "Su_b", "Tv_a", "Uw_a"]
 
 
 def user_species_block(rng, sites, cd=False):
@@ -219,13 +219,17 @@ def make_case(rng, k, force=None):
     """one PHREEQC input + the meta data the checker needs. `force` pins the electrostatic model."""
     models = ["ddl", "ddl", "ddl", "ccm", "no_edl", "dl_bork", "dl_donnan", "dl_donnan_debye", "ddl_user", "ccm_user",
               "no_edl_user", "dl_donnan_user", "cd_music", "ddl_phase", "ddl_kin", "dl_donnan_phase", "ccm_kin",
-              "ddl_redox", "ccm_redox", "dl_donnan_redox", "ddl_redox"]
+              "ddl_redox", "ccm_redox", "dl_donnan_redox", "ddl_redox",
+              # two or three CHARGED surfaces in one SURFACE block (Hfo + user-defined Su / Tv / Uw), every electrostatic model
+              "dl_bork_multi", "ddl_multi", "ccm_multi", "dl_donnan_multi", "cd_music_multi", "dl_bork_multi"]
     model = force or models[k % len(models)] if k < 2 * len(models) else (force or rng.choice(models))
-    user = model.endswith("_user") or model == "cd_music"
+    multi = model.endswith("_multi")
+    user = model.endswith("_user") or model.startswith("cd_music") or multi
     related = "phase" if model.endswith("_phase") else "kin" if model.endswith("_kin") else None
     redox = model.endswith("_redox")
-    base = model.replace("_user", "").replace("_phase", "").replace("_kin", "").replace("_redox", "")
-    db = "phreeqc.dat" if user else rng.choice(["wateq4f.dat", "minteq.v4.dat"]) if redox else rng.choice(["phreeqc.dat", "wateq4f.dat"])
+    base = model.replace("_user", "").replace("_phase", "").replace("_kin", "").replace("_redox", "").replace("_multi", "")
+    hfo = not user or (multi and base != "cd_music")       # phreeqc.dat's Hfo species carry no -cd_music charge distribution
+    db = rng.choice(["phreeqc.dat", "wateq4f.dat"]) if (multi and hfo) else "phreeqc.dat" if user else rng.choice(["wateq4f.dat", "minteq.v4.dat"]) if redox else rng.choice(["phreeqc.dat", "wateq4f.dat"])
     temp = 25.0 if rng.random() < 0.6 else round(rng.uniform(5.0, 60.0), 1)
     pH = round(rng.uniform(3.0, 11.0), 2)
     ionic = 10 ** rng.uniform(-4, 0)
@@ -248,7 +252,11 @@ def make_case(rng, k, force=None):
     text = ""
     meta = {"model": base, "db": db, "user": user, "surfaces": [], "temp": temp}
     if user:
-        sites = rng.choice([["Su_a"], ["Su_a", "Su_b"], ["Su_a", "Tv_a"], ["Su_a", "Su_b", "Tv_a"]])
+        if multi:
+            sites = rng.choice([["Su_a"], ["Su_a", "Tv_a"], ["Su_a", "Su_b", "Tv_a"]] if hfo else
+                               [["Su_a", "Tv_a"], ["Su_a", "Tv_a", "Uw_a"], ["Su_a", "Su_b", "Tv_a", "Uw_a"]])
+        else:
+            sites = rng.choice([["Su_a"], ["Su_a", "Su_b"], ["Su_a", "Tv_a"], ["Su_a", "Su_b", "Tv_a"]])
         blk = user_species_block(rng, sites, cd=(base == "cd_music"))
         text += blk
         meta["user_block"] = blk
@@ -275,7 +283,7 @@ def make_case(rng, k, force=None):
             if base == "ccm":
                 surf.append(" -ccm %s" % fnum(cap[0]))
             meta["surfaces"].append({"name": sname, "sites": {st: ns}, "area": a, "grams": g, "cap": cap})
-    else:
+    if hfo:
         nw = 10 ** rng.uniform(-5.5, -2.5)
         nsx = nw * rng.uniform(0.01, 0.1)
         cap = [round(rng.uniform(0.5, 3.0), 3), 0]
@@ -434,7 +442,7 @@ def gouy(eps, tk, mu, psi):
     return math.sqrt(8000 * eps * EPS0 * R_J * tk * mu) * math.sinh(F_C * psi / (2 * R_J * tk))
 
 
-def state_checks(st, meta, table):
+def state_checks(st, meta, table, si=0):
     """-> list of (kind, coq_term, float_ok, detail). table: species name -> parsed reaction"""
     masters, species = table
     checks = []
@@ -449,8 +457,10 @@ def state_checks(st, meta, table):
         rel = meta.get("related")
         if rel:
             mrel = st["equi"] if rel["kind"] == "phase" else st["kin"]
-            if not mrel or mrel <= 0:
-                mrel = rel["m0"]          # initial-surface calculation: the assemblage / kinetics is not in use yet
+            if si == 0:
+                mrel = rel["m0"]          # initial-surface calculation (first state): the assemblage / kinetics is not in use yet
+            elif not mrel or mrel < 1e-9:
+                continue                  # the phase / reactant has dissolved completely: the surface has vanished (no sites left)
             sf = dict(sf, sites={t: p_ * mrel for t, p_ in sf["sites"].items()}, area=rel["area_per_mol"], grams=mrel)
         mine = []          # surface species of this surface: (rec, site coefficients, charge)
         for s in st["surf"]:
@@ -485,7 +495,23 @@ def state_checks(st, meta, table):
                                                                                  "EDL_sigma": e["sigma"]}))
         elif model == "cd_music":
             checks += cd_checks(st, meta, sf, e, mine, species, masters)
-        if model.startswith("dl_donnan"):
+        if model == "dl_bork" and not meta.get("oci") and abs(sig) >= 1e-5:
+            # -diffuse_layer: the excess integrals are those of the Poisson-Boltzmann profile of the actual electrolyte, so the
+            # surface charge obeys the Grahame equation at the reported psi up to the Romberg tolerance (extra relation, 1e-4)
+            ions = [(a["mol"], split_charge(a["name"])[1]) for a in st["aq"] if a["name"] not in ("H2O", "e-")]
+            y = -F_C * e["psi"] / (R_J * tk)
+            s1 = sum(m * float(z) for m, z in ions)
+            try:
+                gs = sum(m * (math.exp(float(z) * y) - 1) for m, z in ions) + abs(s1) * (math.exp(-y if s1 >= 0 else y) - 1)
+                gr = (1 if e["psi"] > 0 else -1) * math.sqrt(max(0.0, 2000 * st["eps"] * EPS0 * R_J * tk * gs))
+            except OverflowError:
+                gr = float("inf")
+            checks.append(("charge-law-bork", "check_grahame_loose %s %s %s %s %s %s %s" % (Qpairs(zl), Q(A), Q(g), Qpairs(ions), Q(e["psi"]), Q(st["eps"]), Q(tk)),
+                           abs(sig - gr) <= 1e-4 * abs(gr), {"surface": nm, "sigma_species": sig, "grahame": gr, "psi": e["psi"],
+                                                              "tolerance": 1e-4, "mu": st["mu"], "n_surfaces": len(meta["surfaces"])}))
+        if model.startswith("dl_donnan") and abs(sig) >= 1e-5:
+            # (extra relations at loose tolerances: not applied next to the point of zero charge, |sigma| < 1e-5 C/m2, where the
+            #  rows' absolute convergence tolerance dominates)
             gc = gouy(st["eps"], tk, st["mu"], e["psi"])
             checks.append(("charge-law-donnan", "check_ddl_loose %s %s %s %s %s %s %s" % (Qpairs(zl), Q(A), Q(g), Q(e["psi"]), Q(st["mu"]), Q(st["eps"]), Q(tk)),
                            abs(sig - gc) <= 1e-6 * abs(gc), {"surface": nm, "sigma_species": sig, "gouy_chapman": gc, "psi": e["psi"],
@@ -765,7 +791,7 @@ def evaluate(ctx, cases, results):
                 ctx.obligation("parse(selected output row)", False, st["bad"])
                 continue
             samples.append((st, meta))
-            for kind, term, fok, det in state_checks(st, meta, tab):
+            for kind, term, fok, det in state_checks(st, meta, tab, si):
                 allc.append((ci, si, kind, term, fok, det))
     terms = [a[3] for a in allc]
     vals, errs = coq_run(terms)
@@ -850,7 +876,7 @@ def run(ctx):
                                 ("" if st.get(n) else det) if n in st else det) for n, okk, det in ctx.obligations]
             ctx.notes.append("failure attributed by coqtop replay to: " + ", ".join(n for n, v in st.items() if not v))
     boost = 1 if ok else 3          # a broken obligation: search harder for a concrete failing input
-    ncase = ctx.n(78, 600) * boost
+    ncase = ctx.n(81, 600) * boost
     cases = corpus_cases()
     for k in range(ncase):
         c = make_case(ctx.rng, k)
